@@ -2,3 +2,11 @@ claim('C02',
       "Bounded symbolic model checking of the real vote-tally, vote-aggregation, winner/runner-up selection, correlation kernel and normalisation code: for every input inside the stated bounds (all vote vectors for a symbolic iteration count, all leaf->child ownership maps up to 4-5 leaves, all bootstrap subsets of <=4-5 markers with a symbolic bootstrap factor, all real matrices of <=2x3x3(4)) each obligation is discharged by z3; nothing is claimed outside the bounds.",
       "floats modelled as exact reals; numpy semantics on object arrays trusted (validated by the differential self-test on each run); rng.choice(replace=False) contract (duplicate-free sample) assumed; GPU/torch path not covered",
       "DESIGN.md §4 C02")
+claim('C03',
+      "Bounded symbolic model checking of the real per-level assignment loop (run_type_assignment, _run_type_assignment, choose_node, aggregate_votes) and backfill_assignments on every child->parent map of the listed tree sizes, with arbitrary vote/correlation tallies and a symbolic iteration count: every arithmetic clause of the confidence contract is a z3-discharged obligation on every path.",
+      "vote tallies are arbitrary but satisfy 'one vote per iteration, correlation only with a vote, |corr|<=1 per vote' (the kernel side of this is discharged in C02); floats as exact reals; assemble_query_data replaced by a harness oracle computed from the harness's own parent map",
+      "DESIGN.md §4 C03")
+claim('C13',
+      "Bounded symbolic model checking of the real on-disk transposition on an h5py model: every sparsity pattern of the listed shapes, symbolic stored values, every block size of the three internal loops (generalised memory-budget floor), with/without value array and every minor-axis sub-range; plus the hyperslab tiling arithmetic and CSR concatenation. Values are compared by term identity, i.e. for all values.",
+      "h5py replaced by an in-memory model that enforces chunk-shape / ordered-selection / read-only preconditions (validated against real h5py by the self-test, which re-runs sampled inputs through real files); the floor max(100,.) is generalised to small block sizes so that multi-block loops are reached with <=9 stored entries",
+      "DESIGN.md §4 C13")
